@@ -507,6 +507,12 @@ func (srv *Server) serveUDP(l net.PacketConn) error {
 	lUDP, isUDP := l.(*net.UDPConn)
 	readerPC, canPacketConn := reader.(PacketConnReader)
 	if !isUDP && !canPacketConn {
+		// Nothing will be served: undo the start, otherwise a later Shutdown
+		// waits forever for a serve loop that never ran.
+		srv.lock.Lock()
+		srv.started = false
+		srv.lock.Unlock()
+		close(srv.shutdown)
 		return &Error{err: "PacketConnReader was not implemented on Reader returned from DecorateReader but is required for net.PacketConn"}
 	}
 
